@@ -75,17 +75,23 @@ func (m *Manager) syncDB(ctx context.Context) error {
 			return fmt.Errorf("failed to update chain state: %w", err)
 		}
 
+		var actionErr error
 		if err := m.contracts.ProcessActions(index); err != nil {
-			return fmt.Errorf("failed to process contract actions: %w", err)
+			actionErr = fmt.Errorf("failed to process contract actions: %w", err)
 		} else if err := m.volumes.ProcessActions(index); err != nil {
-			return fmt.Errorf("failed to process storage actions: %w", err)
+			actionErr = fmt.Errorf("failed to process storage actions: %w", err)
 		} else if err := m.settings.ProcessActions(index); err != nil {
-			return fmt.Errorf("failed to process settings actions: %w", err)
+			actionErr = fmt.Errorf("failed to process settings actions: %w", err)
 		}
 
+		// the batch is committed: the in-memory tip follows the persisted
+		// marker whether or not the follow-up actions succeeded
 		m.mu.Lock()
 		m.index = index
 		m.mu.Unlock()
+		if actionErr != nil {
+			return actionErr
+		}
 		log.Debug("synced to new chain index", zap.Stringer("index", index))
 	}
 	return nil
